@@ -3,6 +3,7 @@ C20 — Tree state survives its cookie encoding and tracks expand/collapse click
 Part 1: the codec (DTML/TreeCodec.lean).
 -/
 import DTML.TreeCodec
+import DTML.TreeState
 set_option linter.unusedVariables false
 namespace DTML.Props.C20
 open DTML.TreeCodec
@@ -431,5 +432,421 @@ example : decodeStr (encodeStr (List.replicate 57 200)) = some (List.replicate 5
 example : decodeStr (encodeStr (List.replicate 58 7 ++ [0, 255])) = some (List.replicate 58 7 ++ [0, 255]) := by
   decide +kernel
 example : encodeStr [251, 255, 190] = "-/--".toList := by decide +kernel
+
+end DTML.Props.C20
+
+/-! ### Part 2: the expansion state (DTML/TreeState.lean) -/
+namespace DTML.Props.C20
+open DTML.TreeState
+
+@[simp] private theorem id_node (i : Nat) (k : List St) : (St.node i k).id = i := rfl
+@[simp] private theorem kids_node (i : Nat) (k : List St) : (St.node i k).kids = k := rfl
+
+private theorem findId_modifyId (kids : List St) (id id' : Nat) (f : St → St) (hf : ∀ s, s.id = id → (f s).id = id) :
+    findId (modifyId kids id f) id' =
+      if id' = id then (findId kids id).map f else findId kids id' := by
+  induction kids with
+  | nil => simp [modifyId, findId]
+  | cons k ks ih =>
+    simp only [modifyId]
+    by_cases hk : (k.id == id) = true
+    · simp only [hk, if_true]
+      have hk' : k.id = id := by simpa using hk
+      by_cases h' : id' = id
+      · subst h'; simp [findId, List.find?, hf k hk', hk']
+      · have : (k.id == id') = false := by simp [hk']; exact fun e => h' e.symm
+        have h2 : ((f k).id == id') = false := by rw [hf k hk']; simp; exact fun e => h' e.symm
+        simp [findId, List.find?, h2, this, h']
+    · simp only [hk, Bool.false_eq_true, if_false]
+      have hk' : k.id ≠ id := by simpa using hk
+      simp only [findId, List.find?] at ih ⊢
+      by_cases h' : id' = id
+      · subst h'
+        simp only [hk, if_true] at ih ⊢
+        exact ih
+      · simp only [h', if_false] at ih ⊢
+        cases hq : (k.id == id') <;> simp [ih]
+
+private theorem findId_append_new (kids : List St) (n : St) (id' : Nat) (h : findId kids n.id = none) :
+    findId (kids ++ [n]) id' = if id' = n.id then some n else findId kids id' := by
+  simp only [findId, List.find?_append]
+  by_cases h' : id' = n.id
+  · subst h'
+    simp only [findId] at h
+    simp [h, List.find?]
+  · simp only [h', if_false]
+    cases hq : List.find? (fun x => x.id == id') kids with
+    | some v => simp
+    | none =>
+      have : (n.id == id') = false := by simp; exact fun e => h' e.symm
+      simp [List.find?, this]
+
+/-- the chain created for the rest of a diff records exactly its prefixes -/
+private theorem hasPath_chain (rest : Path) : ∀ (q : Path),
+    hasPath (chainRest rest true) q = q.isPrefixOf rest := by
+  induction rest with
+  | nil => intro q; cases q <;> simp [chainRest, hasPath, findId, List.isPrefixOf]
+  | cons r rs ih =>
+    intro q
+    cases q with
+    | nil => simp [hasPath, List.isPrefixOf]
+    | cons a q' =>
+      simp only [chainRest, Bool.or_true, if_true, hasPath, findId, List.find?, St.id, List.isPrefixOf]
+      by_cases ha : a = r
+      · subst ha; simp [St.kids, ih]
+      · have : (r == a) = false := by simp; exact fun e => ha e.symm
+        have h2 : (a == r) = false := by simp [ha]
+        simp [this, h2]
+
+/-- **Expanding.**  After an expand click with path `p`, a path is recorded as
+expanded iff it was before or it is a prefix of `p`. -/
+theorem expand_adds : ∀ (p : Path) (st : List St) (q : Path),
+    hasPath (applyDiff st p true) q = (hasPath st q || q.isPrefixOf p) := by
+  intro p
+  induction p with
+  | nil => intro st q; cases q <;> simp [applyDiff, hasPath, List.isPrefixOf]
+  | cons id rest ih =>
+    intro st q
+    cases q with
+    | nil => simp [hasPath, List.isPrefixOf]
+    | cons a q' =>
+      simp only [applyDiff]
+      cases hf : findId st id with
+      | some n =>
+        simp only [Bool.not_true, Bool.and_false, Bool.false_eq_true, if_false, hasPath]
+        rw [findId_modifyId _ _ _ _ (by intro s _; simp [St.id])]
+        by_cases ha : a = id
+        · subst ha
+          simp only [if_true, hf, Option.map_some, St.kids, ih, List.isPrefixOf, beq_self_eq_true, Bool.true_and]
+        · simp only [ha, if_false, List.isPrefixOf]
+          have : (a == id) = false := by simp [ha]
+          simp [this]
+      | none =>
+        simp only [Bool.or_true, if_true, hasPath]
+        rw [findId_append_new _ _ _ (by simpa [St.id] using hf)]
+        by_cases ha : a = id
+        · subst ha
+          simp only [St.id, if_true, hf, St.kids, hasPath_chain, List.isPrefixOf, beq_self_eq_true, Bool.true_and,
+            Bool.false_or]
+        · simp only [St.id, ha, if_false, List.isPrefixOf]
+          have : (a == id) = false := by simp [ha]
+          simp [this]
+
+/-! wf -/
+private theorem wfList_cons (s : St) (ss : List St) :
+    wfList (s :: ss) = (wfList s.kids && !(ss.any (·.id == s.id)) && wfList ss) := by
+  cases s with
+  | node i k => simp [wfList, wfSt, St.kids, St.id]
+
+private theorem findId_none_iff (kids : List St) (id : Nat) : findId kids id = none ↔ ∀ k ∈ kids, k.id ≠ id := by
+  simp [findId, List.find?_eq_none]
+
+private theorem wf_findId (kids : List St) (id : Nat) (n : St) (hw : wfList kids = true)
+    (hf : findId kids id = some n) : wfList n.kids = true := by
+  induction kids with
+  | nil => simp [findId] at hf
+  | cons k ks ih =>
+    rw [wfList_cons] at hw
+    simp only [Bool.and_eq_true] at hw
+    simp only [findId, List.find?] at hf
+    cases hk : (k.id == id) with
+    | true => simp [hk] at hf; subst hf; exact hw.1.1
+    | false => simp [hk] at hf; exact ih hw.2 hf
+
+private theorem findId_eraseId (kids : List St) (id a : Nat) (hw : wfList kids = true) :
+    findId (eraseId kids id) a = if a = id then none else findId kids a := by
+  induction kids with
+  | nil => simp [eraseId, findId]
+  | cons k ks ih =>
+    rw [wfList_cons] at hw
+    simp only [Bool.and_eq_true] at hw
+    simp only [eraseId]
+    cases hk : (k.id == id) with
+    | true =>
+      have hk' : k.id = id := by simpa using hk
+      simp only [if_true]
+      by_cases ha : a = id
+      · subst ha
+        simp only [if_true]
+        rw [findId_none_iff]
+        intro m hm
+        have := hw.1.2
+        simp only [Bool.not_eq_true', List.any_eq_false, beq_iff_eq] at this
+        rw [← hk']
+        exact this m hm
+      · simp only [ha, if_false, findId, List.find?]
+        have : (k.id == a) = false := by simp [hk']; exact fun e => ha e.symm
+        simp [this]
+    | false =>
+      simp only [Bool.false_eq_true, if_false]
+      have ih' := ih hw.2
+      simp only [findId, List.find?] at ih' ⊢
+      by_cases ha : a = id
+      · subst ha; simp only [hk, if_true] at ih' ⊢; exact ih'
+      · simp only [ha, if_false] at ih' ⊢
+        cases (k.id == a) <;> simp [ih']
+
+/-- **Collapsing.**  After a collapse click on a recorded path `p` of a
+well-formed state, exactly the paths extending `p` (the node and all its
+descendants) are forgotten; everything else is unchanged. -/
+theorem collapse_forgets_descendants : ∀ (p : Path) (st : List St) (q : Path), p ≠ [] →
+    wfList st = true → hasPath st p = true →
+    hasPath (applyDiff st p false) q = (hasPath st q && !(p.isPrefixOf q)) := by
+  intro p
+  induction p with
+  | nil => intro st q h; exact absurd rfl h
+  | cons id rest ih =>
+    intro st q _ hw hp
+    simp only [hasPath] at hp
+    cases hf : findId st id with
+    | none => simp [hf] at hp
+    | some n =>
+      simp only [hf] at hp
+      simp only [applyDiff, hf]
+      cases q with
+      | nil => cases rest <;> simp [hasPath, List.isPrefixOf]
+      | cons a q' =>
+        cases rest with
+        | nil =>
+          simp only [List.isEmpty_nil, Bool.not_false, Bool.and_self, if_true, hasPath]
+          rw [findId_eraseId _ _ _ hw]
+          by_cases ha : a = id
+          · subst ha; simp [List.isPrefixOf]
+          · have : (id == a) = false := by simp; exact fun e => ha e.symm
+            simp [ha, List.isPrefixOf, this]
+        | cons r rs =>
+          simp only [List.isEmpty_cons, Bool.false_and, Bool.false_eq_true, if_false, hasPath]
+          rw [findId_modifyId _ _ _ _ (by intro s _; simp [St.id])]
+          by_cases ha : a = id
+          · subst ha
+            simp only [if_true, hf, Option.map_some]
+            have := ih n.kids q' (by simp) (wf_findId _ _ _ hw hf) hp
+            simp only [St.kids] at this ⊢
+            rw [this]
+            simp [List.isPrefixOf]
+          · have : (id == a) = false := by simp; exact fun e => ha e.symm
+            simp [ha, List.isPrefixOf, this]
+
+private theorem wf_chain (rest : Path) (e : Bool) : wfList (chainRest rest e) = true := by
+  induction rest with
+  | nil => simp [chainRest, wfList]
+  | cons r rs ih =>
+    simp only [chainRest]
+    split
+    · rw [wfList_cons]; simp [ih, wfList]
+    · simp [wfList]
+
+private theorem any_id_modifyId (kids : List St) (id x : Nat) (new : List St) :
+    (modifyId kids id (fun _ => St.node id new)).any (·.id == x) = kids.any (·.id == x) := by
+  induction kids with
+  | nil => simp [modifyId]
+  | cons k ks ih =>
+    simp only [modifyId]
+    cases hk : (k.id == id) with
+    | true =>
+      have : k.id = id := by simpa using hk
+      simp [this]
+    | false => simp [ih]
+
+private theorem wf_modifyId (kids : List St) (id : Nat) (new : List St) (hw : wfList kids = true)
+    (hn : wfList new = true) : wfList (modifyId kids id (fun _ => St.node id new)) = true := by
+  induction kids with
+  | nil => simp [modifyId, wfList]
+  | cons k ks ih =>
+    rw [wfList_cons] at hw
+    simp only [Bool.and_eq_true] at hw
+    simp only [modifyId]
+    cases hk : (k.id == id) with
+    | true =>
+      have hk' : k.id = id := by simpa using hk
+      simp only [if_true]
+      rw [wfList_cons]
+      simp only [kids_node, id_node, hn, Bool.true_and, Bool.and_eq_true]
+      refine ⟨?_, hw.2⟩
+      rw [← hk']; exact hw.1.2
+    | false =>
+      simp only [Bool.false_eq_true, if_false]
+      rw [wfList_cons, any_id_modifyId]
+      simp [hw.1.1, hw.1.2, ih hw.2]
+
+private theorem any_id_eraseId (kids : List St) (id x : Nat) (h : kids.any (·.id == x) = false) :
+    (eraseId kids id).any (·.id == x) = false := by
+  induction kids with
+  | nil => simp [eraseId]
+  | cons k ks ih =>
+    simp only [List.any_cons, Bool.or_eq_false_iff] at h
+    simp only [eraseId]
+    cases hk : (k.id == id) with
+    | true => simpa using h.2
+    | false => simp [h.1, ih h.2]
+
+private theorem wf_eraseId (kids : List St) (id : Nat) (hw : wfList kids = true) : wfList (eraseId kids id) = true := by
+  induction kids with
+  | nil => simp [eraseId, wfList]
+  | cons k ks ih =>
+    rw [wfList_cons] at hw
+    simp only [Bool.and_eq_true] at hw
+    simp only [eraseId]
+    cases hk : (k.id == id) with
+    | true => simpa using hw.2
+    | false =>
+      simp only [Bool.false_eq_true, if_false]
+      rw [wfList_cons]
+      have h1 : ks.any (·.id == k.id) = false := by simpa using hw.1.2
+      simp [hw.1.1, any_id_eraseId _ _ _ h1, ih hw.2]
+
+private theorem wf_append_new (kids : List St) (id : Nat) (new : List St) (hw : wfList kids = true)
+    (hf : findId kids id = none) (hn : wfList new = true) : wfList (kids ++ [St.node id new]) = true := by
+  induction kids with
+  | nil => simp only [List.nil_append]; rw [wfList_cons]; simp [hn, wfList]
+  | cons k ks ih =>
+    rw [wfList_cons] at hw
+    simp only [Bool.and_eq_true] at hw
+    have hk : k.id ≠ id := (findId_none_iff _ _).mp hf k (by simp)
+    have hf' : findId ks id = none := by
+      rw [findId_none_iff] at hf ⊢
+      exact fun m hm => hf m (by simp [hm])
+    simp only [List.cons_append]
+    rw [wfList_cons]
+    have h1 : ks.any (·.id == k.id) = false := by simpa using hw.1.2
+    have h2 : (id == k.id) = false := by simp; exact fun e => hk e.symm
+    simp only [hw.1.1, ih hw.2 hf', List.any_append, h1, List.any_cons, id_node, h2, List.any_nil]
+    simp
+
+/-- clicks keep the state well-formed -/
+theorem wf_applyDiff : ∀ (p : Path) (st : List St) (e : Bool), wfList st = true →
+    wfList (applyDiff st p e) = true := by
+  intro p
+  induction p with
+  | nil => intro st e h; simpa [applyDiff] using h
+  | cons id rest ih =>
+    intro st e hw
+    simp only [applyDiff]
+    cases hf : findId st id with
+    | some n =>
+      simp only
+      split
+      · exact wf_eraseId _ _ hw
+      · exact wf_modifyId _ _ _ hw (ih _ _ (wf_findId _ _ _ hw hf))
+    | none =>
+      simp only
+      split
+      · exact wf_append_new _ _ _ hw hf (wf_chain _ _)
+      · exact hw
+
+mutual
+theorem rowsOf_spec (E : Path → Bool) : ∀ (t : T) (substate : List St) (pre : Path),
+    (∀ q, E (pre ++ q) = hasPath substate q) → rowsOf t substate pre = specOf E t pre
+  | .node id kids, substate, pre, h => by
+    have hE : E (pre ++ [id]) = (findId substate id).isSome := by
+      rw [h [id]]; simp only [hasPath]; cases findId substate id <;> rfl
+    simp only [rowsOf, specOf, hE]
+    congr 1
+    cases hk : kids.isEmpty with
+    | true => simp
+    | false =>
+      simp only [Bool.not_false, Bool.true_and, if_true]
+      cases hf : findId substate id with
+      | none => simp
+      | some s =>
+        simp only [Option.isSome_some, if_true]
+        apply rowsList_spec E kids s.kids (pre ++ [id])
+        intro q
+        rw [List.append_assoc, h ([id] ++ q)]
+        simp [hasPath, hf]
+theorem rowsList_spec (E : Path → Bool) : ∀ (ts : List T) (substate : List St) (pre : Path),
+    (∀ q, E (pre ++ q) = hasPath substate q) → rowsList ts substate pre = specList E ts pre
+  | [], _, _, _ => by simp [rowsList, specList]
+  | t :: ts, substate, pre, h => by
+    simp only [rowsList, specList]
+    rw [rowsOf_spec E t substate pre h, rowsList_spec E ts substate pre h]
+end
+
+/-- **Rows.**  The table shows exactly the root's children plus, recursively and
+depth-first, the children of every node whose path is recorded as expanded;
+each node with children carries one link, encoding its own path, which is a
+collapse link exactly when the node is expanded (`specList` is that abstract
+description; `Row.path`, `Row.hasLink`, `Row.expanded` are the link). -/
+theorem rows_spec (root : T) (state : List St) (hroot : (findId state root.id).isSome = true) :
+    render root state = specList (fun p => hasPath state p) root.kids [root.id] := by
+  unfold render
+  cases hf : findId state root.id with
+  | none => simp [hf] at hroot
+  | some s =>
+    simp only
+    apply rowsList_spec
+    intro q
+    simp [hasPath, hf]
+
+/-- a click on a link the tag generated -/
+inductive Click where
+  | expand (p : Path)
+  | collapse (p : Path)
+
+def stepState (st : List St) : Click → List St
+  | .expand p => click st p true
+  | .collapse p => click st p false
+
+/-- the abstract specification: the set of expanded paths, as a predicate -/
+def stepSpec (E : Path → Bool) : Click → (Path → Bool)
+  | .expand p => fun q => E q || q.isPrefixOf p
+  | .collapse p => fun q => E q && !(p.isPrefixOf q)
+
+/-- a history in which every collapse click targets a path that is expanded at
+that moment (the tag only generates collapse links for expanded nodes) -/
+def ValidHistory : List St → List Click → Prop
+  | _, [] => True
+  | st, c :: cs =>
+    (match c with
+     | .expand _ => True
+     | .collapse p => p ≠ [] ∧ hasPath st p = true) ∧ ValidHistory (stepState st c) cs
+
+/-- **History invariant (refinement).**  For every history of clicks on links
+the tag generated, starting from any well-formed state, the concrete nested-list
+state records exactly the paths the abstract set-of-paths specification
+contains: expanding adds the path (and its prefixes), collapsing removes the
+path and everything below it. -/
+theorem history_invariant : ∀ (cs : List Click) (st : List St) (E : Path → Bool),
+    wfList st = true → (∀ q, hasPath st q = E q) → ValidHistory st cs →
+    (∀ q, hasPath (cs.foldl stepState st) q = (cs.foldl stepSpec E) q) ∧
+    wfList (cs.foldl stepState st) = true := by
+  intro cs
+  induction cs with
+  | nil => intro st E hw h _; exact ⟨h, hw⟩
+  | cons c cs ih =>
+    intro st E hw h hv
+    simp only [List.foldl_cons]
+    obtain ⟨hc, hrest⟩ := hv
+    apply ih (stepState st c) (stepSpec E c)
+    · cases c <;> exact wf_applyDiff _ _ _ hw
+    · intro q
+      cases c with
+      | expand p => simp only [stepState, stepSpec, click, expand_adds, h]
+      | collapse p =>
+        simp only [stepState, stepSpec, click]
+        rw [collapse_forgets_descendants p st q hc.1 hw hc.2, h]
+    · exact hrest
+
+/-- the initial (and collapse_all) state: well-formed, only the root recorded -/
+theorem init_state (root : T) :
+    wfList (initState root) = true ∧
+    ∀ q, hasPath (initState root) q = (q == [] || q == [root.id]) := by
+  constructor
+  · simp [initState, wfList, wfSt]
+  · intro q
+    cases q with
+    | nil => simp [hasPath]
+    | cons a q' =>
+      simp only [initState, hasPath, findId, List.find?, id_node]
+      by_cases ha : root.id = a
+      · subst ha
+        cases q' <;> simp [hasPath, findId]
+      · have : (root.id == a) = false := by simpa using ha
+        have h2 : a ≠ root.id := fun e => ha e.symm
+        simp [this, h2]
+
+example : ValidHistory (initState (.node 0 [.node 1 [.node 2 []]]))
+    [.expand [0, 1], .collapse [0, 1]] := by
+  refine ⟨trivial, ⟨by decide, by decide⟩, trivial⟩
 
 end DTML.Props.C20
